@@ -489,12 +489,12 @@ func appendAltText(dst []byte, source []byte, parent *Inline) []byte {
 		curr := stack[len(stack)-1]
 		stack = stack[:len(stack)-1]
 		switch curr.Kind() {
-		case TextKind:
+		case TextKind, CharacterReferenceKind:
 			if !hasAttr {
 				dst = append(dst, ` alt="`...)
 				hasAttr = true
 			}
-			dst = append(dst, curr.Text(source)...)
+			dst = append(dst, html.EscapeString(curr.Text(source))...)
 		case IndentKind, SoftLineBreakKind, HardLineBreakKind:
 			if !hasAttr {
 				dst = append(dst, ` alt="`...)
@@ -510,7 +510,7 @@ func appendAltText(dst []byte, source []byte, parent *Inline) []byte {
 		}
 	}
 	if !hasAttr {
-		dst = append(dst, `alt="`...)
+		dst = append(dst, ` alt="`...)
 	}
 	dst = append(dst, `"`...)
 	return dst
